@@ -356,10 +356,15 @@ fn wrong_seed_sweep_case<P: G>(cfg: Cfg) -> Box<dyn Case> {
 
 /// A batch beyond the chunk limit whose first chunk carries no seed: both recovering modes must agree on every mask
 fn long_consistency_case<P: G>() -> Box<dyn Case> {
-    case(format!("{}/long-batch-consistency", P::NAME), move |_v| {
+    long_consistency_case_layout::<P>(258, 256)
+}
+
+/// `len` members, those at positions >= `seeded_from` carry a seed (0: all of them -- exactly 256 seeded members is the point at
+/// which any narrow counter of seeded statements wraps)
+fn long_consistency_case_layout<P: G>(len: usize, seeded_from: usize) -> Box<dyn Case> {
+    case(format!("{}/long-batch-consistency{}", P::NAME, if (len, seeded_from) == (258, 256) { String::new() } else { format!("/len={},seeded-from={}", len, seeded_from) }), move |_v| {
         fg::clear_intern();
         let mut res = CaseResult::new("explored");
-        let len = 258usize;
         let cfg = Cfg::new(2, 1, 1, 1);
         let mut sts = Vec::new();
         let mut proofs = Vec::new();
@@ -369,8 +374,8 @@ fn long_consistency_case<P: G>() -> Box<dyn Case> {
             let mut wit = Wit::default_for(&cfg);
             wit.values[0] = (pos % 4) as u64;
             wit.blindings[0][0] = blinding(6000 + pos, 0);
-            if pos >= 256 {
-                wit.seed = Some(seed_scalar(pos as u64));
+            if pos >= seeded_from {
+                wit.seed = Some(seed_scalar(pos as u64 + 1));
             }
             let built = build_cached::<P>(&cfg, &wit).honest();
             let ctx = contexts()[pos % 6];
@@ -438,6 +443,10 @@ pub fn run(rep: &mut Report) {
     }
     cases.push(long_consistency_case::<F>());
     cases.push(long_consistency_case::<RistrettoPoint>());
+    // exactly 256 and 257 seeded members (all of them seeded)
+    cases.push(long_consistency_case_layout::<F>(256, 0));
+    cases.push(long_consistency_case_layout::<RistrettoPoint>(256, 0));
+    cases.push(long_consistency_case_layout::<RistrettoPoint>(257, 0));
     rep.explore("C10", cases);
     rep.expect_sub_outcome("verdict:Ok");
     rep.expect_sub_outcome("verdict:Err:VerificationFailed");
